@@ -10,7 +10,7 @@ manipulation, the futex semaphore — are serialised by its mutex and are the su
             commit  commit_wait's epoch comparison                    (trace: load epoch)
             sleep   semaphore P succeeds (needs a V)                  (trace: successful CAS 0→1 / exchange returning 0)
             cancel  cancel_wait: remove itself from the wait set, or find that a notifier has removed it (then a V is
-                    on its way and must be consumed: `pump`)          (trace: own my_is_in_list.store(false) / load → false)
+                    on its way and must be consumed: `pump`)          (trace: own cnt.store(n-1) / my_is_in_list load → false)
   notifier: peek    `my_waitset.empty()` outside the monitor mutex    (trace: load cnt)
             flush   under the monitor mutex: epoch+1, remove the selected waiters   (trace: epoch.store(e+1))
             v       semaphore V of one removed waiter                 (trace: exchange(0) on its semaphore)
@@ -466,7 +466,10 @@ open Proto
 
 def evMatch (e : Ev) (kind var : String) (a b ok : Nat) : Bool :=
   if e.kind == "psem" then var == e.var && ((kind == "cas" && a == 0 && b == 1 && ok == 1) || (kind == "xchg" && a == 0 && b == 2))
-  else if e.kind == "cancel" then var == e.var && (if e.a == 1 then kind == "store" && a == 0 else kind == "load" && a == 0)
+  else if e.kind == "cancel" then
+    -- self-removal: the waiter's own decrement of the wait-set count (under the monitor mutex; what a concurrent
+    -- `empty()` peek observes); found-removed: its my_is_in_list load that returns false
+    (if e.a == 1 then kind == "store" && var == "cnt" && a + 1 == b else var == e.var && kind == "load" && a == 0)
   else if e.kind == "casf" then kind == "cas" && ok == 0 && var == e.var && a == e.a && b == e.b
   else if e.kind == "cas" then kind == "cas" && ok == 1 && var == e.var && a == e.a && b == e.b
   else if e.kind == "load" then kind == "load" && var == e.var && (a == e.a || var == "cnt")   -- (the count read by a peek is vetted by `orcFix`)
